@@ -173,3 +173,308 @@ impl Pt {
 		self.b * self.cap() + (self.a as u64) + m
 	}
 }
+
+// ---------------------------------------------------------------------------------------------
+// phase 2 constructs: for / loop / continue, iterator chains, indexing and slices with panics,
+// structs, `&mut self`, macro_rules, u128, `?`, `if let`, `match` statements, generics over IntoIterator
+// ---------------------------------------------------------------------------------------------
+macro_rules! rotl {
+	($num:expr, $shift:expr) => {
+		$num = ($num << $shift) | ($num >> (64 - $shift));
+	};
+}
+#[derive(Clone, Debug, PartialEq)]
+pub struct Rec {
+	pub ts: u64,
+	pub d: Dn,
+	pub sc: u32,
+	pub sec: bool,
+}
+#[derive(Clone, Copy, Debug, PartialEq, PartialOrd, Eq, Ord)]
+pub struct Dn {
+	num: u64,
+}
+impl Dn {
+	pub fn from_num(num: u64) -> Dn {
+		Dn { num: std::cmp::max(num, 1) }
+	}
+	pub fn to_num(self) -> u64 {
+		self.num
+	}
+}
+impl Rec {
+	pub fn mk(ts: u64, d: Dn) -> Rec {
+		Rec { ts, d, sc: 7, sec: ts % 3 == 0 }
+	}
+}
+pub struct Sip(u64, u64, u64, u64);
+impl Sip {
+	pub fn new(v: &[u64; 4]) -> Sip {
+		Sip(v[0], v[1], v[2], v[3])
+	}
+	fn round(&mut self, rot_e: u8) {
+		self.0 = self.0.wrapping_add(self.1);
+		rotl!(self.1, 13);
+		self.1 ^= self.0;
+		rotl!(self.3, rot_e);
+		self.2 = self.2.wrapping_add(self.3);
+		self.3 ^= self.2;
+	}
+	pub fn hash(&mut self, nonce: u64, rot_e: u8) {
+		self.3 ^= nonce;
+		for _ in 0..3 {
+			self.round(rot_e);
+		}
+		self.2 ^= 0xff;
+	}
+	pub fn digest(&self) -> u64 {
+		(self.0 ^ self.1) ^ (self.2 ^ self.3)
+	}
+	pub fn bump(&mut self, k: u64) -> u64 {
+		self.0 += k;
+		if self.0 > 100 {
+			return self.1;
+		}
+		self.1 = self.1 * 3;
+		self.0 + self.1
+	}
+}
+pub fn h_recs(a: u64, b: u64, c: u64) -> Vec<Rec> {
+	let mut v = vec![];
+	let n = a % 7;
+	for i in 0..n {
+		v.push(Rec::mk(a.wrapping_mul(i + 1) ^ b, Dn::from_num(c >> i)));
+	}
+	v
+}
+pub fn h_list(a: u64, b: u64) -> Vec<u64> {
+	let mut v = vec![a, b, a ^ b, a.wrapping_add(b), a >> 3];
+	let n = b % 5;
+	for i in 0..n {
+		v.push(a.wrapping_mul(i + 3));
+	}
+	v
+}
+pub fn t_for_range(a: u64, b: u64) -> u64 {
+	let mut acc = 0u64;
+	for i in (a % 20)..(b % 30) {
+		if i % 3 == 0 {
+			continue;
+		}
+		if i > 25 {
+			break;
+		}
+		acc = acc * 31 + i;
+	}
+	acc
+}
+pub fn t_for_list(a: u64, b: u64) -> (u64, u64) {
+	let v = h_list(a, b);
+	let mut s = 0u64;
+	let mut m = 0u64;
+	for x in v.iter() {
+		s += x;
+		if *x > m {
+			m = *x;
+		}
+	}
+	for &y in &v {
+		s ^= y >> 1;
+	}
+	(s, m)
+}
+pub fn t_loop2(mut a: u64) -> (u64, u64) {
+	let mut n = 0u64;
+	loop {
+		if a == 0 {
+			break;
+		}
+		a >>= 1;
+		if a & 1 == 1 {
+			continue;
+		}
+		n += 1;
+	}
+	(a, n)
+}
+pub fn t_iter_sum(a: u64, b: u64, c: u64) -> u64 {
+	let v = h_recs(a, b, c);
+	let s: u64 = v.iter().skip(1).map(|r| r.d.to_num()).sum();
+	let k = 100 * v.iter().filter(|r| r.sec).count() as u64;
+	let t: u64 = v.iter().map(|r| r.sc as u64).sum();
+	s ^ k ^ (t << 32)
+}
+pub fn t_iter_misc(a: u64, b: u64) -> (u64, bool, bool, u64) {
+	let v = h_list(a, b);
+	let f = v.iter().fold(7u64, |acc, x| acc.wrapping_mul(31) ^ x);
+	let any = v.iter().any(|&x| x == 0);
+	let all = v.iter().all(|x| *x >= b);
+	let z: u64 = v.iter().zip(v.iter().rev()).map(|(p, q)| p & q).sum();
+	(f, any, all, z + v.iter().take(2).rev().fold(0, |s, x| s * 2 + x))
+}
+pub fn t_scan(a: u64) -> Vec<u64> {
+	let v = h_list(a, 3);
+	v.iter()
+		.scan(0, |acc, &x| {
+			*acc += &x;
+			Some(*acc)
+		})
+		.map(|x| x - 1)
+		.collect()
+}
+pub fn t_index(a: u64, b: u64) -> u64 {
+	let v = h_list(a, b);
+	let i = (a % 12) as usize;
+	v[i] + v[0]
+}
+pub fn t_slice(a: u64, b: u64) -> u64 {
+	let v = h_list(a, b);
+	let lo = (a % 9) as usize;
+	let hi = (b % 11) as usize;
+	let w = &v[lo..hi];
+	let t = &v[1..];
+	w.len() as u64 * 1000 + t.iter().sum::<u64>() % 1000 + v[..2].len() as u64
+}
+pub fn t_lastfirst(a: u64, b: u64) -> u64 {
+	let v = h_recs(a, b, 77);
+	let l = v.last().unwrap().ts;
+	let f = if v.is_empty() { 0 } else { v.first().unwrap().d.to_num() };
+	l ^ f
+}
+pub fn t_set(a: u64, b: u64) -> u64 {
+	let mut v = vec![0u64; (a % 6) as usize];
+	for i in 0..(b % 8) {
+		v[i as usize] = a ^ i;
+	}
+	let mut x = 0;
+	for i in 0..v.len() {
+		x ^= v[i] << i;
+	}
+	x
+}
+pub fn t_sip(a: u64, b: u64, r: u64) -> u64 {
+	let mut s = Sip::new(&[a, b, a ^ 0x1234, !b]);
+	s.hash(a.wrapping_add(b), r as u8);
+	let d = s.digest();
+	let e = s.bump(d % 90);
+	d ^ e ^ s.digest()
+}
+pub fn t_u128(scale: u64, h: u64) -> u64 {
+	let diff = ((scale as u128) << 64) / (std::cmp::max(1, h) as u128);
+	std::cmp::min(diff, <u64>::max_value() as u128) as u64
+}
+pub fn t_u128b(a: u64, b: u64) -> u64 {
+	let p = (a as u128) * (b as u128) + (a as u128);
+	let q = p >> 60;
+	(q as u64) ^ ((p % 1_000_000_007u128) as u64) ^ ((p.wrapping_mul(p) >> 100) as u64)
+}
+pub fn t_try(a: u64, b: u64) -> Option<u64> {
+	let x = a.checked_sub(b)?;
+	let y = x.checked_add(a)?;
+	if y % 2 == 0 {
+		return None;
+	}
+	Some(y / 2)
+}
+pub fn t_iflet(a: u64, b: u64) -> u64 {
+	let mut r = 5;
+	if let Some(d) = a.checked_sub(b) {
+		r += d;
+	} else {
+		r = b - a;
+	}
+	if let Some(e) = b.checked_add(a) {
+		r ^= e;
+	}
+	r
+}
+pub fn t_matchstmt(a: u64, b: u64) -> u64 {
+	let mut r = 1;
+	let mut s = 2;
+	match a.checked_sub(b) {
+		Some(d) => {
+			r = d;
+			s += 1;
+		}
+		None => s = b,
+	}
+	r * 3 + s
+}
+pub fn h_gen<T>(k: u64, cursor: T) -> u64
+where
+	T: IntoIterator<Item = Rec>,
+{
+	let mut it = cursor.into_iter();
+	let first = it.next().unwrap();
+	let second = it.next().unwrap();
+	let rest: Vec<Rec> = it.take(k as usize).collect();
+	first.ts - second.ts + rest.len() as u64
+}
+pub fn t_gen(a: u64, b: u64, c: u64) -> u64 {
+	h_gen(c % 4, h_recs(a, b, c))
+}
+pub fn t_rev(a: u64, b: u64) -> Vec<u64> {
+	let mut v = h_list(a, b);
+	v.reverse();
+	if v.len() > 6 {
+		v.push(1);
+	}
+	v
+}
+pub fn t_structlit(a: u64, b: u64) -> (u64, u64, u32, bool) {
+	let mut r = Rec::mk(a, Dn::from_num(b));
+	r.ts += 5;
+	r.sc = (a >> 7) as u32;
+	let q = Rec { ts: r.ts ^ 1, d: Dn { num: b }, sc: r.sc + 1, sec: !r.sec };
+	(q.ts, std::cmp::max(q.d, r.d).to_num(), q.sc, q.sec)
+}
+pub fn h_iter(a: u64, b: u64) -> Box<dyn Iterator<Item = u64>> {
+	let lo = match a.checked_sub(b) {
+		Some(l) => l % 50,
+		None => return Box::new(std::iter::empty::<u64>()),
+	};
+	let hi = lo + (b % 9);
+	Box::new((lo..=hi).map(|n| n * n + 1))
+}
+pub fn t_incl(a: u64, b: u64) -> u64 {
+	let mut s = 0;
+	for x in h_iter(a, b) {
+		s = s * 7 + x;
+	}
+	let t: u64 = ((a % 5)..(b % 9)).map(|k| k << 2).sum();
+	s ^ t ^ (u64::MAX - 2..=u64::MAX).into_iter().count() as u64
+}
+pub fn h_bytes(bits: &[u8], from: usize) -> u64 {
+	let mut buf: [u8; 8] = [0; 8];
+	buf.copy_from_slice(&bits[from..from + 8]);
+	u64::from_le_bytes(buf) >> 3
+}
+pub fn t_bytes(a: u64, b: u64) -> u64 {
+	let mut v = a.to_le_bytes().to_vec();
+	for x in b.to_le_bytes().iter() {
+		v.push(*x);
+	}
+	h_bytes(&v, (b % 12) as usize) ^ (v[3] as u64)
+}
+pub struct Hp {
+	pub keys: [u64; 4],
+	pub mask: u64,
+	pub other: String,
+}
+impl Hp {
+	pub fn node(&self, edge: u64, uorv: u64) -> Result<u64, String> {
+		let h = self.keys[(edge % 4) as usize] ^ (2 * edge + uorv);
+		Ok(h & self.mask)
+	}
+	pub fn ext(&self, k: u64) -> u64 {
+		let d = ((k as u128) << 64) / (std::cmp::max(1, self.outside().len() as u64) as u128);
+		d as u64
+	}
+	fn outside(&self) -> String {
+		self.other.clone()
+	}
+}
+pub fn t_result(a: u64, b: u64, c: u64) -> u64 {
+	let hp = Hp { keys: [a, b, c, a ^ b], mask: c | 0xff, other: "xyz".to_string() };
+	hp.node(a, b & 1).unwrap() ^ hp.ext(c)
+}
